@@ -36,10 +36,11 @@ Proof. exact unknown_written. Qed.
 Print Assumptions C09_unknown_written_back.
 
 (* and reading that back gives the same message, unknown fields of every wire type and every number below
-   2^29 included (canon_msg constrains unknown fields only to be delimited according to their wire type) *)
+   2^29 included (canon_msg constrains unknown fields only to be delimited according to their wire type).
+   Bound 268435425 = max_input: up to there no message can have more members than the parser's slabs hold. *)
 Theorem C09_roundtrip_with_unknown : forall (E : env) (m : msg) (b : list Z),
   env_ok E = true -> canon_msg E m = true ->
-  pack_msg E m = Ok b -> Z.of_nat (length b) <= 2147483647 ->
+  pack_msg E m = Ok b -> Z.of_nat (length b) <= 268435425 ->
   unpack_top E (m_desc m) b = Ok m.
 Proof.
   intros E m b EO C Hp Hl. unfold unpack_top.
@@ -54,7 +55,7 @@ Proof. exact older_env_ok. Qed.
 Print Assumptions C09_older_schema_is_a_schema.
 
 Theorem C09_newer_data_survives_an_older_program : forall (E : env) (keep : nat -> field -> bool) (m : msg) (b : list Z),
-  env_ok E = true -> canon_msg E m = true -> pack_msg E m = Ok b -> Z.of_nat (length b) <= 2147483647 ->
+  env_ok E = true -> canon_msg E m = true -> pack_msg E m = Ok b -> Z.of_nat (length b) <= 268435425 ->
   exists mo b',
     unpack_top (older keep E) (m_desc m) b = Ok mo /\          (* the older program accepts the newer data *)
     pack_msg (older keep E) mo = Ok b' /\                      (* re-serialises it *)
@@ -65,7 +66,7 @@ Print Assumptions C09_newer_data_survives_an_older_program.
 
 (* what the older program holds in between: the projection, canonical for the older schema *)
 Theorem C09_what_the_older_program_sees : forall (E : env) (keep : nat -> field -> bool) (m : msg) (b : list Z),
-  env_ok E = true -> canon_msg E m = true -> pack_msg E m = Ok b -> Z.of_nat (length b) <= 2147483647 ->
+  env_ok E = true -> canon_msg E m = true -> pack_msg E m = Ok b -> Z.of_nat (length b) <= 268435425 ->
   env_ok (older keep E) = true /\ unpack_top (older keep E) (m_desc m) b = Ok (proj E keep m) /\
   canon_msg (older keep E) (proj E keep m) = true /\
   exists b', pack_msg (older keep E) (proj E keep m) = Ok b' /\ length b' = length b /\ unpack_top E (m_desc m) b' = Ok m.
